@@ -166,7 +166,27 @@ def make_bases(desc, m):
         su, sv = desc['sides']
         return (InteriorFacetBasis(m, eu, intorder=io, side=su, facets=s),
                 InteriorFacetBasis(m, ev, intorder=io, side=sv, facets=s))
+    if kind == 'oriented':
+        ob = oriented_interface(m, desc['seed'])
+        su, sv = desc['sides']
+        return (InteriorFacetBasis(m, eu, intorder=io, side=su, facets=ob),
+                InteriorFacetBasis(m, ev, intorder=io, side=sv, facets=ob))
     raise KeyError(kind)
+
+
+def oriented_interface(m, seed):
+    """an OrientedBoundary of interior facets: the interface around a random set of cells (mesh-boundary facets
+    dropped), with the orientation flags of Mesh.facets_around (and randomly flipped as a whole)"""
+    from skfem.generic_utils import OrientedBoundary
+    rng = np.random.default_rng(seed + 23)
+    for _ in range(20):
+        k = int(rng.integers(1, max(2, m.nelements)))
+        cells = np.sort(rng.permutation(m.nelements)[:k])
+        ob = m.facets_around(cells, flip=bool(rng.integers(0, 2)))
+        keep = m.f2t[1, np.asarray(ob)] != -1
+        if keep.any():
+            return OrientedBoundary(np.asarray(ob)[keep], ob.ori[keep])
+    raise RuntimeError('no interior interface found')
 
 
 # ---------------------------------------------------------------------------------------------- integrands
@@ -272,7 +292,7 @@ def gen_case(rng, quick):
     el = ELEMS[fam]
     eu = rng.choice(el)
     ev = eu if rng.random() < 0.3 else rng.choice(el)
-    kinds = ['cell'] * 3 + ['cells', 'cells', 'cells2', 'facet', 'facets', 'ifacet', 'ifacet']
+    kinds = ['cell'] * 3 + ['cells', 'cells', 'cells2', 'facet', 'facets', 'ifacet', 'ifacet', 'oriented', 'oriented']
     kind = 'cell' if fam == 'wedge' else rng.choice(kinds)
     if fam == 'wedge' and rng.random() < 0.4:
         kind = 'cells'
@@ -282,6 +302,11 @@ def gen_case(rng, quick):
     if kind == 'ifacet':
         desc['sides'] = rng.choice([(0, 1), (1, 0), (0, 0), (1, 1)])
         desc['subset'] = rng.random() < 0.5
+    if kind == 'oriented':
+        desc['sides'] = rng.choice([(0, 1), (1, 0), (1, 1), (0, 0), (1, 0)])
+        if FAMILY[mesh] == 'line':
+            desc['kind'] = 'ifacet'
+            desc['subset'] = False
     desc['nterms'] = rng.randint(1, 3)
     desc['tseed'] = rng.randrange(10 ** 6)
     return desc
@@ -308,6 +333,10 @@ def eval_case(desc):
     ub, vb = make_bases(desc, m)
     facet = desc['kind'] in ('facet', 'facets', 'ifacet')
     terms = _terms(desc, ub, vb, facet)
+    if desc['kind'] == 'oriented':          # the reference below is assembled facet group by facet group: no per-facet arrays
+        for t in terms:
+            if t['coef'] == 'array':
+                t['coef'] = 'poly'
     cplx = desc['dtype'] == 'c'
     dtype = np.complex128 if cplx else np.float64
     rng = np.random.default_rng(desc['seed'])
@@ -340,6 +369,25 @@ def eval_case(desc):
             'terms': terms, 'shape': list(A.shape)}
     if A.shape != (vb.N, ub.N):
         out.append(('shape', 1.0, 0.0))
+    if desc['kind'] == 'oriented':
+        # side s of an oriented facet with flag ori is the cell f2t[ori] for s = 0 and f2t[1 - ori] for s = 1: assemble the
+        # same form on PLAIN facet arrays, facets with ori = 0 with the sides as given, facets with ori = 1 with the sides swapped
+        from skfem.assembly import InteriorFacetBasis
+        ob = ub.find
+        su, sv = desc['sides']
+        eu_, ev_ = make_elem(desc['eu']), make_elem(desc['ev'])
+        ref = 0.
+        for g in (0, 1):
+            F = np.asarray(ob)[ob.ori == g].astype(np.int32)
+            if len(F) == 0:
+                continue
+            ug = InteriorFacetBasis(m, eu_, intorder=desc['intorder'], side=su if g == 0 else 1 - su, facets=F)
+            vg = InteriorFacetBasis(m, ev_, intorder=desc['intorder'], side=sv if g == 0 else 1 - sv, facets=F)
+            ref = ref + BilinearForm(f, dtype=dtype).assemble(ug, vg, **{k: raw[k] for k in ('p', 's')}, a=np.zeros(ug.dx.shape))
+        Ad = A.toarray() if hasattr(A, 'toarray') else A
+        Rd = ref.toarray()
+        out.append(('oriented-side', float(np.abs(Ad - Rd).max(initial=0.0)), float(np.abs(Aabs.toarray()).max(initial=0.0)) + 1e-300))
+        info['oriented'] = {'facets': int(len(ob)), 'ori1': int((ob.ori == 1).sum())}
     # linear form on the test basis (parameters given as fields of the trial basis stay valid: same quadrature points)
     lterms = [dict(t) for t in terms]
     g = linear_integrand(lterms, cplx)
@@ -366,6 +414,70 @@ def eval_case(desc):
     return out, info
 
 
+def trilinear_integrand(terms, nu, nv, cplx=False, absolute=False):
+    """f(*u_fields, *v_fields, *w_fields, p) = sum_k coef_k(p) * sum_abc C_k[a,b,c] op_k(u)[a] op'_k(v)[b] op''_k(w)[c]"""
+    def form(*args):
+        p = args[-1]
+        us, vs, ws = args[:nu], args[nu:nu + nv], args[nu + nv:-1]
+        out = 0.
+        for t in terms:
+            a, b, c = _op(us[t['fu'] % len(us)], t['ou']), _op(vs[t['fv'] % len(vs)], t['ov']), _op(ws[t['fw'] % len(ws)], t['ow'])
+            A, B, Cc = (x.reshape((-1,) + x.shape[-2:]) for x in (a, b, c))
+            C = _tensor(t['cseed'], (A.shape[0], B.shape[0], Cc.shape[0]))
+            co = _coef(t['coef'], p, cplx)
+            if absolute:
+                out = out + np.abs(co) * np.einsum('abc,aeq,beq,ceq->eq', np.abs(C), np.abs(A), np.abs(B), np.abs(Cc))
+            else:
+                out = out + co * np.einsum('abc,aeq,beq,ceq->eq', C, A, B, Cc)
+        return out
+    return form
+
+
+def eval_trilinear(desc):
+    """sum_abc T_abc w_a v_b u_c == Functional(f(u_h, v_h, w_h)) for three (different) bases"""
+    import random
+    from skfem.assembly import TrilinearForm, Functional
+    m = make_mesh(desc['mesh'], desc['mseed'])
+    r = random.Random(desc['tseed'] + 1)
+    small = [e for e in ELEMS[FAMILY[desc['mesh']]] if e not in ('ElementTriArgyris', 'ElementQuadBFS', 'ElementHex2', 'ElementTriP3',
+                                                                  'ElementQuadP(3)', 'ElementTetCCR', 'ElementHexS2', 'ElementTriHermite')]
+    eu, ev, ew = (r.choice(small) for _ in range(3))
+    d1 = dict(desc, eu=eu, ev=ev)
+    ub, vb = make_bases(d1, m)
+    wb, _ = make_bases(dict(desc, eu=ew, ev=ev), m)
+    if ub.Nbfun * vb.Nbfun * wb.Nbfun * ub.nelems > 40000:
+        return None, None
+    facet = desc['kind'] in ('facet', 'facets', 'ifacet')
+    ops = [[available_ops(f) for f in b.basis[0]] for b in (ub, vb, wb)]
+    coefs = ['one', 'x0', 'poly', 'h', 'scalar'] + (['n0'] if facet else [])
+    terms = []
+    for _ in range(r.randint(1, 2)):
+        fu, fv, fw = (r.randrange(len(o)) for o in ops)
+        terms.append({'fu': fu, 'ou': r.choice(ops[0][fu]), 'fv': fv, 'ov': r.choice(ops[1][fv]), 'fw': fw, 'ow': r.choice(ops[2][fw]),
+                      'coef': r.choice(coefs), 'cseed': r.randrange(10 ** 6)})
+    rng = np.random.default_rng(desc['seed'] + 9)
+    u, v, w = (rng.integers(-4, 5, size=b.N) / 4.0 for b in (ub, vb, wb))
+    nu, nv = len(ub.basis[0]), len(vb.basis[0])
+    f = trilinear_integrand(terms, nu, nv)
+    fabs = trilinear_integrand(terms, nu, nv, absolute=True)
+    par = {'s': 1.5}
+    T = TrilinearForm(f).assemble(ub, vb, wb, **dict(par))
+    Tabs = TrilinearForm(fabs).assemble(ub, vb, wb, **dict(par))
+    out = []
+    if tuple(T.shape) != (wb.N, vb.N, ub.N) or tuple(T.local_shape) != (wb.Nbfun, vb.Nbfun, ub.Nbfun):
+        out.append(('trilinear-shape', 1.0, 0.0))
+    # contraction straight from the triplets (the dense N-tensor path is corresponded on stubs)
+    lhs = float(np.sum(T.data * w[T.indices[0]] * v[T.indices[1]] * u[T.indices[2]]))
+    scale = float(np.sum(np.abs(Tabs.data) * np.abs(w[Tabs.indices[0]]) * np.abs(v[Tabs.indices[1]]) * np.abs(u[Tabs.indices[2]]))) + 1e-300
+    uh, vh, wh = _astuple(ub.interpolate(u)), _astuple(vb.interpolate(v)), _astuple(wb.interpolate(w))
+    J = Functional(lambda p: f(*p['uh'], *p['vh'], *p['wh'], p)).assemble(ub, uh=uh, vh=vh, wh=wh, **dict(par))
+    out.append(('Twvu=J', abs(lhs - J), scale))
+    if ub.N * vb.N * wb.N <= 30000 and len(T.data) <= 6000:
+        Td = T.toarray()
+        out.append(('toarray3', abs(float(np.einsum('abc,a,b,c', Td, w, v, u)) - lhs), scale))
+    return out, {'elements': (eu, ev, ew), 'Nbfun': (int(ub.Nbfun), int(vb.Nbfun), int(wb.Nbfun)), 'nelems': int(ub.nelems), 'terms': terms}
+
+
 def nontrivial(desc, info):
     return info['nelems'] >= 2 and (desc['eu'] != desc['ev'] or info['Nbfun'][0] >= 2)
 
@@ -377,6 +489,7 @@ def run(ctx):
     n = ctx.n(400, 5000)
     worst = 0.0
     stats = {}
+    ntri = 0
     for c in range(n):
         desc = gen_case(rng, ctx.quick())
         key = f"real:{FAMILY[desc['mesh']]}:{desc['kind']}"
@@ -397,12 +510,28 @@ def run(ctx):
         stats['trial!=test'] = stats.get('trial!=test', 0) + (desc['eu'] != desc['ev'])
         if c < 3:
             ctx.sample({'kind': 'oracle case', 'desc': desc, 'info': info, 'checks': [(a, float(b), float(s)) for a, b, s in res]})
+        if c % 6 == 0 and desc['kind'] != 'cells2':
+            try:
+                r3, i3 = eval_trilinear(desc)
+            except Exception as e:
+                import traceback
+                ctx.fail(key + ':trilinear:exception', f'{type(e).__name__}: {e}', {'oracle_case': dict(desc, trilinear=True),
+                                                                                    'traceback': traceback.format_exc()[-1500:]})
+                r3 = None
+            if r3 is not None:
+                ntri += 1
+                ctx.count(('trilinear', desc), nontrivial=len(set(i3['elements'])) >= 2)
+                ctx.hist('trilinear elements distinct', len(set(i3['elements'])))
+                res = res + [(n_, e_, s_) for n_, e_, s_ in r3]
+                info = dict(info, trilinear=i3)
         for name, err, scale in res:
             rel = err / scale if scale > 0 else float('inf')
             worst = max(worst, rel if np.isfinite(rel) else 0.0)
             if not (err <= TOL * scale):
                 ctx.fail(key + ':' + name, f'{name}: discrepancy {err:.3e} (scale {scale:.3e}, tolerance {TOL:g}*scale)',
-                         {'oracle_case': desc, 'info': info, 'check': name, 'error': float(err), 'scale': float(scale)})
+                         {'oracle_case': dict(desc, trilinear=name in ('Twvu=J', 'toarray3', 'trilinear-shape')), 'info': info,
+                          'check': name, 'error': float(err), 'scale': float(scale)})
+    stats['trilinear cases'] = ntri
     ctx.extra['oracle'] = {'cases': n, 'max_relative_discrepancy': worst, 'tolerance': TOL,
                            'margin_factor': (TOL / worst) if worst > 0 else None, **stats}
     ctx.log(f'oracle: {n} real-basis cases, max relative discrepancy {worst:.2e} (tolerance {TOL:g})')
@@ -413,6 +542,9 @@ def replay(ctx, inp):
     warnings.simplefilter('ignore')
     desc = inp['oracle_case']
     res, info = eval_case(desc)
+    if desc.get('trilinear'):
+        r3, _ = eval_trilinear(desc)
+        res = res + (r3 or [])
     for name, err, scale in res:
         ctx.log(f'replay {name}: error {err:.3e} scale {scale:.3e}')
         if not (err <= TOL * scale):
